@@ -28,6 +28,9 @@ pub enum Action {
     RespondChunked(usize),
     /// into_writer(), `writes` parts of one complete raw response with `body` bytes
     Raw { writes: usize, body: usize, flush: bool },
+    /// a complete raw response written with another method of `Write` than write_all:
+    /// style 1 = write_vectored (two slices per call), 2 = plain write() of <= 7 bytes
+    RawStyle { style: usize, body: usize },
     /// the request is dropped: automatic 500
     Drop,
 }
@@ -38,6 +41,7 @@ impl Action {
             Action::Respond(n) => format!("respond{}", n),
             Action::RespondChunked(n) => format!("chunked{}", n),
             Action::Raw { writes, body, flush } => format!("raw{}x{}{}", writes, body, if *flush { "f" } else { "" }),
+            Action::RawStyle { style, body } => format!("raw{}{}", if *style == 1 { "v" } else { "w" }, body),
             Action::Drop => "drop".into(),
         }
     }
@@ -50,6 +54,12 @@ impl Action {
         }
         if let Some(n) = s.strip_prefix("chunked") {
             return Action::RespondChunked(n.parse().unwrap_or(10));
+        }
+        if let Some(n) = s.strip_prefix("rawv") {
+            return Action::RawStyle { style: 1, body: n.parse().unwrap_or(10) };
+        }
+        if let Some(n) = s.strip_prefix("raww") {
+            return Action::RawStyle { style: 2, body: n.parse().unwrap_or(10) };
         }
         let r = s.trim_start_matches("raw");
         let flush = r.ends_with('f');
@@ -64,11 +74,17 @@ impl Action {
     fn to_plan(&self, id: usize) -> ReqPlan {
         let finish = match self {
             Action::Respond(n) => Finish::Respond(RespSpec::ok(*n)),
-            Action::RespondChunked(n) => Finish::Respond(RespSpec { status: 200, body_len: *n, declared: false, threshold: None }),
+            Action::RespondChunked(n) => Finish::Respond(RespSpec { status: 200, body_len: *n, declared: false, threshold: None, headers: 0 }),
             Action::Raw { writes, body, flush } => Finish::Writer {
                 parts: if *writes == 0 { vec![] } else { raw_response_parts(id, *body, *writes) },
                 flush: *flush,
             },
+            Action::RawStyle { style, body } => {
+                // leading empty parts select the Write method (scenario::handle_request)
+                let mut parts: Vec<Vec<u8>> = vec![Vec::new(); *style];
+                parts.extend(raw_response_parts(id, *body, 1));
+                Finish::Writer { parts, flush: false }
+            }
             Action::Drop => Finish::Drop,
         };
         ReqPlan { read: ReadPlan::None, finish }
@@ -78,7 +94,7 @@ impl Action {
         match self {
             Action::Respond(_) | Action::RespondChunked(_) => Some((200, Some(id))),
             Action::Raw { writes: 0, .. } => None,
-            Action::Raw { .. } => Some((200, Some(id))),
+            Action::Raw { .. } | Action::RawStyle { .. } => Some((200, Some(id))),
             Action::Drop => Some((500, None)),
         }
     }
@@ -92,6 +108,8 @@ pub fn actions(tier: Tier) -> Vec<Action> {
         Action::Raw { writes: 0, body: 0, flush: false },
         Action::Raw { writes: 2, body: 1500, flush: true },
         Action::Drop,
+        Action::RawStyle { style: 1, body: 10 },
+        Action::RawStyle { style: 1, body: 1500 },
     ];
     if tier == Tier::Thorough {
         v.push(Action::RespondChunked(10));
@@ -99,6 +117,8 @@ pub fn actions(tier: Tier) -> Vec<Action> {
         v.push(Action::Raw { writes: 2, body: 10, flush: false });
         v.push(Action::Raw { writes: 2, body: 1500, flush: false });
         v.push(Action::Raw { writes: 1, body: 1500, flush: true });
+        v.push(Action::RawStyle { style: 2, body: 10 });
+        v.push(Action::RawStyle { style: 2, body: 1500 });
     }
     v
 }
@@ -294,6 +314,21 @@ pub fn seam_body(sc: SeamScenario, obs: Arc<Mutex<SeamObs>>) {
                             let _ = w.write_all(&p);
                             if flush {
                                 let _ = w.flush();
+                            }
+                        }
+                    }
+                }
+                Action::RawStyle { style, body } => {
+                    for p in raw_response_parts(i, body, 1) {
+                        if style == 1 {
+                            let _ = crate::scenario::write_vectored_all(&mut w, &p);
+                        } else {
+                            let mut off = 0;
+                            while off < p.len() {
+                                match w.write(&p[off..(off + 7).min(p.len())]) {
+                                    Ok(n) if n > 0 => off += n,
+                                    _ => break,
+                                }
                             }
                         }
                     }
@@ -508,7 +543,7 @@ impl Check for C01 {
     }
     fn rule(&self, tier: Tier) -> String {
         format!(
-            "answer actions {:?}; n=2: every program, handler threads started in both forced orders (bound 0), all at once (strict bound 2), with the second request sent while the first handler already runs (connection thread parsing concurrently, bound 1), and at the SequentialWriter seam (ALL interleavings, unbounded); n=3: every program over 6 actions with all 6 forced orders, racing at strict bound 1{}; pipelines of 65 and 130 (thorough: 16, 65, 130, 300, 1030) requests with three programs (all respond / respond, unused writer, drop, two-part writer in turn / one respond followed by unused writers) answered in reverse, rotated and odd-then-even order at the default schedule; {} scenarios; oracle: the client stream parses into complete messages whose (status, request id) sequence is the request order (writers that emit nothing are skipped, a dropped request shows as 500), bodies carry their own request id, no hang; non-trivial = all",
+            "answer actions {:?} (rawv / raww = a raw response written through write_vectored / through plain write() calls of at most 7 bytes instead of write_all); n=2: every program, handler threads started in both forced orders (bound 0), all at once (strict bound 2), with the second request sent while the first handler already runs (connection thread parsing concurrently, bound 1), and at the SequentialWriter seam (ALL interleavings, unbounded); n=3: every program over 6 actions with all 6 forced orders, racing at strict bound 1{}; pipelines of 65 and 130 (thorough: 16, 65, 130, 300, 1030) requests with three programs (all respond / respond, unused writer, drop, two-part writer in turn / one respond followed by unused writers) answered in reverse, rotated and odd-then-even order at the default schedule; {} scenarios; oracle: the client stream parses into complete messages whose (status, request id) sequence is the request order (writers that emit nothing are skipped, a dropped request shows as 500), bodies carry their own request id, no hang; non-trivial = all",
             actions(tier).iter().map(|a| a.label()).collect::<Vec<_>>(),
             if tier == Tier::Thorough { " and at the seam at chess bound 2, plus chess bound 3 at the seam for the 27 programs over {respond, raw writer in two flushed parts, unused raw writer}; n=4: 4 actions, all 24 forced orders" } else { " and at the seam at chess bound 1; n=4: 3 actions (respond, unused raw writer, drop), all 24 forced orders" },
             items(tier).len()
